@@ -1787,9 +1787,10 @@ def bipartite_shift(N, M, pattern=[]):
     G.name = "bipartite_shift_regular({},{},{})".format(N, M, pattern)
 
     L, R = G.parts()
-    pattern.sort()
+    # sort a copy: the caller's sequence is left as it was
+    offsets = sorted(pattern)
     for u in L:
-        for offset in pattern:
+        for offset in offsets:
             G.add_edge(u, 1 + (u - 1 + offset) % M)
 
     return G
